@@ -18,6 +18,9 @@ RULE = (
     'each compared with a full-mesh enumeration. A mode within 4 ulp of a bin edge may fall on either side (counted once). '
     'non-trivial = distinct (kernel, n, edge family, Nmu/Npi, poles, nthread) whose range contains >= 2 bins with modes'
 )
+RULE += (
+    ' Added after seeded round 9: 257-1000 k bins on small meshes (modes far beyond bin 255).'
+)
 ASSUMPTIONS = [
     'mu edges partition [0,1]; k edges strictly increasing (documented domain)',
     'a mode whose k^2 or mu^2 equals an edge (within 4 ulp of the working dtype) may be counted on either side of that edge, but exactly once',
